@@ -19,30 +19,46 @@ TABLE_CONSTRUCTS = ["moore_offsets_2d", "vn_offsets_2d", "hex_even_offsets", "he
                     "grid_connect_2d_code", "grid_connect_nd_code", "grid_moore_nd_construction", "grid_vn_nd_construction",
                     "grid_dispatch_skeleton", "cell_connect_skeleton", "cell_nbhd_conditions_code", "cell_nbhd_skeleton",
                     "vor_export_code", "vor_connect_code", "net_connect_code"]
-RULE = ("histories = one cell space (OrthogonalMooreGrid / OrthogonalVonNeumannGrid with 1-4 axes of sizes 1-4(5), "
-        "HexGrid incl. sizes 1 and 2, tori (hex tori only with even size along the parity axis), Network over a simple "
-        "graph with isolated nodes, VoronoiGrid over integer-lattice points in general position) + `build` (read every "
-        "cell's connections) + a shuffled sequence of get_neighborhood(radius, include_center) calls in three call "
-        "shapes and `.neighborhood` reads, radii 0..max(dims)+1, each (cell,radius) asked with both flags and repeated; "
-        "quick: every dimension vector over {1..4}^{1..4} with <= 16 cells x Moore/von Neumann x torus; "
-        "non-trivial = build + at least 2 queries with a non-empty answer; distinct = SHA1 of the history")
+RULE = ("histories = one cell space + operations on it. Spaces: OrthogonalMooreGrid / OrthogonalVonNeumannGrid with 1-4 axes of sizes "
+        "1-4(5) (quick: every dimension vector over {1..4}^{1..3} with <= 16 cells, 4 axes one vector per multiset of sizes in two "
+        "orders) x torus; HexGrid incl. sizes 1 and 2, tori only with even size along the parity axis; Network over simple graphs incl. "
+        "isolated nodes and the empty graph, over DiGraphs (boundary of the statement), over str/tuple node labels (oracle only); "
+        "VoronoiGrid over integer-lattice points in general position (1-10 points) and over binary64 points with a margin from "
+        "degeneracy (oracle only, exact rational predicates); 30% of the spaces use cells whose bool() is False and len() is 0. "
+        "Operations: `build` (read every cell's connections; a twin space is built from the SAME argument object), `cert` (Voronoi: "
+        "every triangle of the implementation's triangulation), get_neighborhood(radius, include_center) in three call shapes plus "
+        "numpy-scalar / float / bool-int spellings of the arguments, `.neighborhood`, `place` (CellAgent of one of three classes enters a "
+        "cell), `agents` (len / cells / agents / [cell] of the returned CellCollection, after abandoned iterators); radii 0, -1, "
+        "1..max(dims)+1, occasionally 40 and - one oracle-only history - 256..258 on a 262-cell path; each (cell, radius) asked with "
+        "both flags, shuffled, some queries repeated at the end. non-trivial = build + at least 2 queries with a non-empty answer; "
+        "distinct = SHA1 of the history")
 TRUSTED_BASE = [
-    "Coq 8.16.1 kernel (coqc); vm_compute used for finite facts over the regenerated tables and for evaluating the model in the correspondence",
-    "no axioms: Print Assumptions reports 'Closed under the global context' for every C07 theorem",
-    "harness/tables/grid_geom.py (T1) extracting the 2-D offset tables, the hex parity selector and the functools.cache parameter tuples",
+    "Coq 8.16.1 kernel (coqc); vm_compute for finite facts over the regenerated tables / translated code and for evaluating the model in the correspondence",
+    "no axioms: Print Assumptions reports 'Closed under the global context' for each of the 51 C07 theorems",
+    "T1 extractors harness/tables/grid_geom.py (2-D offset tables, hex parity selector translated with pyexpr, functools.cache parameter "
+    "tuples; a missing cache on _neighborhood is reported as broken) and harness/tables/cellgeom_code.py (pyexpr translation of "
+    "Grid._connect_single_cell_2d/_nd, Delaunay.export_triangles, VoronoiGrid._connect_cells, Network._connect_single_cell, the "
+    "conditions and recursive-call arguments of Cell._neighborhood; literals of the n-D offset constructions; statement skeletons "
+    "modulo local names, messages, docstrings for the glue); harness/pyexpr.py",
     "harness/props/C07.py driver+observer and the Gallina literal printer (T2, differential testing, not a proof)",
-    "Model/CellGeom.v is a hand transcription of grid.py/cell.py/network.py; dict = insertion-ordered key list; the connection table "
-    "the neighbourhood model runs on is the implementation's own (passed in by `build`), compared separately with the model's geometry",
-    "VoronoiGrid: Bowyer-Watson in binary64 is NOT modelled; model and oracle state the specification (Delaunay edges by an exact integer "
-    "in-circle test) and the implementation's connections are compared with it",
+    "Model/CellGeom.v: dict = insertion-ordered key list (C07_connections_dict ties the overwrite reading to it); the connection table the "
+    "neighbourhood model runs on is the implementation's own (passed in by `build`), compared separately with the model's geometry; "
+    "itertools.product / combinations, networkx adjacency order, functools.cache key equality (equal-and-equally-hashed arguments share "
+    "an entry) as modelled",
+    "VoronoiGrid: Bowyer-Watson in binary64 is NOT modelled or proved; its result is validated per instance (delaunay_cert / "
+    "vor_conn_cert evaluated inside Coq on the exported triangulation, exact integer orientation / in-circle tests)",
     "Uint63 primitive hash only in scratch Cases files, never under a theorem",
 ]
 ASSUMPTIONS = [
-    "dimensions are positive Python ints, radii Python ints; cells are addressed by their position in all_cells",
-    "order of cells in a neighbourhood / of connections is not part of the statement: compared as sorted sets plus a duplicate flag",
-    "hex tori only with an even size along the parity axis (dimensions[1]); hexagon layout = even-q with column j = coordinate[1]",
-    "Network: simple undirected graphs (no self-loops, no multi-edges); Voronoi: integer points in [0,20]^2, no three collinear, "
-    "no four cocircular, well inside the triangulation frame",
+    "dimensions are positive Python ints; radii are integers (int, numpy integer, integral float, True); cells are addressed by their position in all_cells",
+    "order of cells in a neighbourhood / of connections / of agents is not part of the statement: compared as sorted sets plus a duplicate flag",
+    "hex tori only with an even size along the parity axis (dimensions[1]) - C07_hex_odd_torus_refuted shows why; hexagon layout = even-q with column j = coordinate[1]",
+    "Network: the statement is about simple undirected graphs; directed graphs are modelled as a boundary (connections = successors, no symmetry); "
+    "node labels other than ints are oracle-only",
+    "Voronoi: no three centroids collinear, no four cocircular, all well inside the triangulation frame (integer points in [0,20]^2 for the "
+    "model and certificate; binary64 points in [0,10)^2 with margins are oracle-only)",
+    "connections are not rewired after construction (connect/disconnect after the first query would leave the functools caches stale: outside the statement)",
+    "speed is not part of the statement: a query exceeding the 2 s CPU budget of the driver is recorded ([-4]) and never a verdict by itself",
 ]
 E_RADIUS = 1
 _DS = "mesa/discrete_space/"
@@ -178,6 +194,12 @@ def _queries(rng, ncells, rmax, n, cells=None):
             qs.append(["prop", c])
         if rng.random() < 0.08:
             qs.append(["nbhd", rng.randrange(3), c, rng.choice([0, -1]), rng.random() < 0.5])
+        if rng.random() < 0.15:
+            # the same query with the radius / flag spelled as numpy scalar, float or bool/int: equal and equally hashed, so the
+            # functools caches treat it as the positional int / bool spelling (model op: form 0)
+            qs.append(["nbhd", 0, c, r, rng.random() < 0.5, rng.choice(["np", "float", "bool"])])
+        if rng.random() < 0.06:
+            qs.append(["nbhd", rng.randrange(3), c, rng.choice([rmax + 7, 40]), rng.random() < 0.5])   # far beyond the space
     # CellCollection level: agents enter cells between the queries; the collection of a (possibly cached)
     # neighbourhood must show the agents that are in its cells at the time it is read
     if rng.random() < 0.5:
@@ -340,12 +362,49 @@ def gen_cases(rng, tier):
     #     neighbourhoods = balls of directed hops, no symmetry demanded
     for _ in range(15 if quick else 300):
         cases.append(_net_case(rng, directed=True))
+    cases.append({"space": {"kind": "net", "n": 0, "edges": []}, "ops": [["build"], ["nbhd", 0, 0, 1, True]]})   # empty graph
+    # 3c. node ids that are not ints (str, tuple): oracle only
+    for _ in range(8 if quick else 150):
+        c = _net_case(rng)
+        c["space"]["kind"] = "netl"
+        cases.append(c)
     # 4. Voronoi
     for n in (1, 2, 3, 4):
         cases.append(_vor_case(rng, n))
     for _ in range(40 if quick else 1500):
         cases.append(_vor_case(rng))
+    # 4b. Voronoi over binary64 (non-dyadic) coordinates, well separated from degeneracy: oracle only, exact rational predicates
+    for _ in range(12 if quick else 250):
+        n = rng.choice([2, 3, 4, 5, 6, 7, 8])
+        pts = _rand_float_points(rng, n)
+        cases.append({"space": {"kind": "vorf", "pts": pts}, "ops": [["build"]] + _queries(rng, len(pts), 3, rng.randint(1, 3))})
+    # cells / agents whose truth value is False and whose len() is 0 (nothing in the statement depends on it)
+    for c in cases:
+        if rng.random() < 0.3:
+            c["space"]["falsy"] = True
     return cases
+
+
+def _rand_float_points(rng, n):
+    """binary64 points in [0, 10)^2 with a margin from every degeneracy: each point is farther than 0.05 from the line
+    through any two others, |in-circle determinant| > 0.5 for every four"""
+    for _ in range(400):
+        pts = [[rng.uniform(0, 10), rng.uniform(0, 10)] for _ in range(n)]
+        ok = True
+        for a, b, c in itertools.combinations(pts, 3):
+            side = max(((a[0] - b[0]) ** 2 + (a[1] - b[1]) ** 2) ** 0.5, ((a[0] - c[0]) ** 2 + (a[1] - c[1]) ** 2) ** 0.5,
+                       ((b[0] - c[0]) ** 2 + (b[1] - c[1]) ** 2) ** 0.5)
+            if abs(_orient(a, b, c)) <= 0.05 * side:
+                ok = False
+                break
+        if ok:
+            for a, b, c, d in itertools.combinations(pts, 4):
+                if abs(_incircle(a, b, c, d)) <= 0.5:
+                    ok = False
+                    break
+        if ok:
+            return pts
+    return [[0.1, 0.2], [7.3, 1.1], [3.3, 9.7]][:n]
 
 
 def enumerate_cases(tier, broken=False):
@@ -373,35 +432,72 @@ def enumerate_cases(tier, broken=False):
 
 
 # ================================================================== implementation side
-def _make_space(sp):
+def _labels(n):
+    """non-integer node ids for the labelled-network stream: strings and tuples"""
+    return [f"n{i}" if i % 2 == 0 else (i, "x") for i in range(n)]
+
+
+def _space_args(sp):
+    """the caller-owned argument object of the constructor (a list / a graph), built fresh"""
+    k = sp["kind"]
+    if k in ("moore", "vn", "hex"):
+        return list(sp["dims"])
+    if k in ("net", "dnet", "netl"):
+        import networkx as nx
+
+        g = nx.DiGraph() if k == "dnet" else nx.Graph()
+        lab = _labels(sp["n"]) if k == "netl" else list(range(sp["n"]))
+        g.add_nodes_from(lab)
+        g.add_edges_from([(lab[u], lab[v]) for u, v in sp["edges"]])
+        return g
+    return [list(p) for p in sp["pts"]]
+
+
+def _args_snapshot(sp, args):
+    if sp["kind"] in ("net", "dnet", "netl"):
+        return (list(args.nodes), sorted(map(repr, args.edges)), {repr(u): [repr(v) for v in args.adj[u]] for u in args.nodes})
+    import copy
+
+    return copy.deepcopy(args)
+
+
+def _make_space(sp, args=None):
     import warnings
 
-    from mesa.discrete_space import HexGrid, Network, OrthogonalMooreGrid, OrthogonalVonNeumannGrid, VoronoiGrid
+    from mesa.discrete_space import Cell, HexGrid, Network, OrthogonalMooreGrid, OrthogonalVonNeumannGrid, VoronoiGrid
 
+    if args is None:
+        args = _space_args(sp)
+    kw = {}
+    if sp.get("falsy"):
+        # cells whose truth value is False and whose len() is 0: nothing in the statement depends on bool(cell)
+        class FalsyCell(Cell):
+            def __bool__(self):
+                return False
+
+            def __len__(self):
+                return 0
+
+        kw["cell_klass"] = FalsyCell
     rnd = _random.Random(1)
     with warnings.catch_warnings():
         warnings.simplefilter("ignore")
         k = sp["kind"]
         if k == "moore":
-            return OrthogonalMooreGrid(tuple(sp["dims"]), torus=sp["torus"], random=rnd)
+            return OrthogonalMooreGrid(args, torus=sp["torus"], random=rnd, **kw)
         if k == "vn":
-            return OrthogonalVonNeumannGrid(tuple(sp["dims"]), torus=sp["torus"], random=rnd)
+            return OrthogonalVonNeumannGrid(args, torus=sp["torus"], random=rnd, **kw)
         if k == "hex":
-            return HexGrid(tuple(sp["dims"]), torus=sp["torus"], random=rnd)
-        if k in ("net", "dnet"):
-            import networkx as nx
-
-            g = nx.Graph() if k == "net" else nx.DiGraph()
-            g.add_nodes_from(range(sp["n"]))
-            g.add_edges_from([tuple(e) for e in sp["edges"]])
-            return Network(g, random=rnd)
-        if k == "vor":
-            return VoronoiGrid([list(p) for p in sp["pts"]], random=rnd)
+            return HexGrid(args, torus=sp["torus"], random=rnd, **kw)
+        if k in ("net", "dnet", "netl"):
+            return Network(args, random=rnd, **kw)
+        if k in ("vor", "vorf"):
+            return VoronoiGrid(args, random=rnd, **kw)
     raise ValueError(k)
 
 
 _CLS = {"moore": "OrthogonalMooreGrid", "vn": "OrthogonalVonNeumannGrid", "hex": "HexGrid", "net": "Network",
-        "dnet": "Network", "vor": "VoronoiGrid"}
+        "dnet": "Network", "netl": "Network", "vor": "VoronoiGrid", "vorf": "VoronoiGrid"}
 
 
 def _key_code(kind, key):
@@ -410,6 +506,8 @@ def _key_code(kind, key):
         for x in key:
             acc = acc * 3 + int(x) + 1
         return acc
+    if kind == "netl":
+        return 0 if isinstance(key, str) else 1   # oracle-only stream: the observation is not compared with the model
     if kind in ("net", "dnet"):
         return int(key)
     return int(key[0]) * 1000 + int(key[1])
@@ -442,6 +540,19 @@ def _check_connections(sp, space, cells, idx, failures, opi):
                                          f"(wrapped on a torus, absent beyond the edge), i.e. "
                                          f"{ {k: coords[v] for k, v in sorted(e.items())} }"})
                 break
+    elif kind == "netl":
+        lab = _labels(sp["n"])
+        adj = {u: set() for u in range(sp["n"])}
+        for u, v in sp["edges"]:
+            adj[u].add(v)
+            adj[v].add(u)
+        for i, c in enumerate(cells):
+            if c.coordinate != lab[i] or {k: v for k, v in got[i].items()} != {lab[v]: v for v in adj[i]}:
+                failures.append({"key": "C07/Network/connections/not-the-graph-edges", "op": opi,
+                                 "what": f"Network with node labels {lab} and edges {sp['edges']} (by position): node {lab[i]!r} "
+                                         f"(cell coordinate {c.coordinate!r}) has connections {sorted(map(repr, got[i]))}, its graph "
+                                         f"neighbours are {[lab[v] for v in sorted(adj[i])]}"})
+                break
     elif kind in ("net", "dnet"):
         adj = {u: set() for u in range(sp["n"])}
         for u, v in sp["edges"]:
@@ -458,7 +569,9 @@ def _check_connections(sp, space, cells, idx, failures, opi):
                                          f"{sorted(got[i].items())}, its graph neighbours are {sorted(adj[i])}"})
                 break
     else:
-        pts = [tuple(p) for p in sp["pts"]]
+        from fractions import Fraction
+
+        pts = [tuple(Fraction(x) for x in p) for p in sp["pts"]]   # exact also for binary64 coordinates
         edges = _delaunay_edges(pts)
         for i, c in enumerate(cells):
             e = {}
@@ -485,8 +598,8 @@ def _descr(sp):
     k = sp["kind"]
     if k in ("moore", "vn", "hex"):
         return f"({tuple(sp['dims'])}, torus={sp['torus']})"
-    if k in ("net", "dnet"):
-        return f"({'directed, ' if k == 'dnet' else ''}nodes 0..{sp['n'] - 1}, edges {sp['edges']})"
+    if k in ("net", "dnet", "netl"):
+        return f"({'directed, ' if k == 'dnet' else ''}{'labelled, ' if k == 'netl' else ''}nodes 0..{sp['n'] - 1}, edges {sp['edges']})"
     return f"({sp['pts']})"
 
 
@@ -597,7 +710,9 @@ def run_impl(case):
         old_handler = signal.signal(signal.SIGPROF, _alarm)
         signal.setitimer(signal.ITIMER_PROF, 30)
         try:
-            space = _make_space(sp)
+            args = _space_args(sp)
+            snap = _args_snapshot(sp, args)
+            space = _make_space(sp, args)
         finally:
             signal.setitimer(signal.ITIMER_PROF, 0)
             signal.signal(signal.SIGPROF, old_handler)
@@ -629,6 +744,20 @@ def run_impl(case):
                 ops_for_model.append(["build", conn])
                 if not built:
                     _check_connections(sp, space, cells, idx, failures, opi)
+                    # the SAME argument object handed to a second space: the caller's object is not modified, the twin has the
+                    # same connections, and the first space is untouched (nothing is shared through class / module state)
+                    twin = _make_space(sp, args)
+                    tcells = list(twin._cells.values())
+                    tidx = {id(c): i for i, c in enumerate(tcells)}
+                    tconn = [[(repr(k), tidx.get(id(v), -1)) for k, v in c.connections.items()] for c in tcells]
+                    oconn = [[(repr(k), idx.get(id(v), -1)) for k, v in c.connections.items()] for c in cells]
+                    if _args_snapshot(sp, args) != snap:
+                        failures.append({"key": f"C07/{cls}/construct/argument-modified", "op": opi,
+                                         "what": f"{cls} {_descr(sp)}: the constructor changed the object it was given: {snap} -> {_args_snapshot(sp, args)}"})
+                    if tconn != oconn or oconn != [[(repr(k), t) for (k, t) in zip(c.connections, row)] for c, row in zip(cells, conn)]:
+                        failures.append({"key": f"C07/{cls}/construct/second-space-differs", "op": opi,
+                                         "what": f"{cls} {_descr(sp)}: a second space built from the same argument object has different "
+                                                 f"connections, or building it changed the first one"})
                 built = True
                 continue
             if kind == "cert":
@@ -668,7 +797,17 @@ def run_impl(case):
                 if aid not in agents:
                     from mesa.discrete_space import CellAgent
 
-                    agents[aid] = CellAgent(model)
+                    class A2(CellAgent):          # truth value False
+                        def __bool__(self):
+                            return False
+
+                    class A3(A2):                 # subclass of a subclass, len() == 0 and an attribute the others lack
+                        extra = 1
+
+                        def __len__(self):
+                            return 0
+
+                    agents[aid] = (CellAgent, A2, A3)[aid % 3](model)
                     agent_id[id(agents[aid])] = aid
                 agents[aid].cell = cell
                 loc[aid] = c
@@ -697,6 +836,8 @@ def run_impl(case):
                         obs.append([-1, E_RADIUS])
                         continue
                     raise
+                next(iter(coll.agents), None)   # an abandoned iterator must not disturb the next read
+                next(iter(coll), None)
                 got = [agent_id.get(id(a), -1) for a in coll.agents]
                 ccells = [idx.get(id(x), -1) for x in coll.cells]
                 obs.append([len(coll), 1 if len(set(got)) != len(got) else 0] + sorted(got))
@@ -717,12 +858,22 @@ def run_impl(case):
                                              f"{sorted(expc)} of the neighbourhood are {expa} (agent -> cell: {loc})"})
                 continue
             if kind == "nbhd":
-                _, form, _, r, ic = op
+                _, form, _, r, ic = op[:5]
                 if overrun:
                     obs.append([-4])
                     continue
+                spell = op[5] if len(op) > 5 else None
+                if spell and r >= 1:
+                    import numpy as np
+
+                    rr = {"np": np.int64(r), "float": float(r), "bool": (True if r == 1 else r)}[spell]
+                    icc = {"np": np.bool_(ic), "float": ic, "bool": int(ic)}[spell]
+                else:
+                    rr, icc = r, ic
                 try:
-                    if form == 0:
+                    if spell and r >= 1:
+                        res = _with_budget(lambda: cell.get_neighborhood(rr, icc))
+                    elif form == 0:
                         res = _with_budget(lambda: cell.get_neighborhood(r, ic))
                     elif form == 1:
                         res = _with_budget(lambda: cell.get_neighborhood(radius=r, include_center=ic))
@@ -787,7 +938,8 @@ def run_impl(case):
             obs.append([-1, 99])
             failures.append({"key": f"C07/{cls}/{kind}/unexpected-exception", "op": opi,
                              "what": f"{op} raised {type(e).__name__}: {e}"})
-    return {"obs": obs, "failures": failures, "ops_for_model": ops_for_model, "model": _model_affordable(case, conn) and not overrun and not case.get("oracle_only")}
+    return {"obs": obs, "failures": failures, "ops_for_model": ops_for_model, "model": _model_affordable(case, conn) and not overrun and not case.get("oracle_only")
+            and sp["kind"] not in ("netl", "vorf")}
 
 
 # ================================================================== model side
@@ -801,8 +953,10 @@ def _space_term(sp):
         return f"SOrth {L.b(k == 'moore')} {_zl(sp['dims'])} {L.b(sp['torus'])}"
     if k == "hex":
         return f"SHex {_zl(sp['dims'])} {L.b(sp['torus'])}"
-    if k in ("net", "dnet"):
-        return f"{'SNet' if k == 'net' else 'SDNet'} {L.z(sp['n'])} {L.lst([L.zpair(e) for e in sp['edges']])}"
+    if k in ("net", "dnet", "netl"):
+        return f"{'SDNet' if k == 'dnet' else 'SNet'} {L.z(sp['n'])} {L.lst([L.zpair(e) for e in sp['edges']])}"
+    if k == "vorf":
+        return "SVor []"   # oracle-only stream (binary64 coordinates); never evaluated against the model
     return f"SVor {L.lst([L.zpair(p) for p in sp['pts']])}"
 
 
@@ -844,18 +998,33 @@ def nontrivial(case):
     return bool(ops) and ops[0][0] == "build" and sum(1 for o in obs if len(o) > 1 and o[0] in (0, 1)) >= 2
 
 
-LEVEL_TEXT = ("Machine-checked Coq theorems over a Gallina transcription of Cell._neighborhood (as repaired), its three cache layers and "
-              "the grid/network connection code: for EVERY connection function, radius >= 1, flag and cell the neighbourhood is exactly the "
-              "set of cells within r connection hops, the cell itself present iff include_center, without duplicates (C07_nbhd_is_ball, "
-              "C07_nbhd_nodup, C07_center_rule); every history of queries through the functools caches (key tuples re-extracted from the "
-              "source on every run) gets the answers of a fresh cell (C07_cache_transparent); the n-D Moore / von Neumann offset "
-              "constructions are exactly the offsets of Chebyshev / Manhattan norm 1 for every number of axes, the regenerated 2-D tables "
-              "agree with them, connection = wrapped/plain c+d inside the bounds and is symmetric for every dimension vector incl. sizes 1 "
-              "and 2; the regenerated hex tables + parity selector connect exactly the cells at cube distance 1 for every (i,j) in Z^2. "
-              "The model is tied to the code by the regenerated tables (T1) and by differential evaluation on the implementation's own "
-              "connection tables (T2); an independent oracle states the property on the implementation.")
-LEVEL_NOTE = ("Theorems are about the model. Voronoi: the Delaunay-edge specification (exact integer in-circle test) is what model and oracle "
-              "compare the implementation with; Bowyer-Watson itself is not verified. Trusted: Coq kernel, the T1 extractors, the "
-              "driver/observer, CPython dict semantics as modelled. No axioms.")
-TECHNIQUE = "Coq proof (induction over radius / op histories / number of axes, closed under global context) + source-regenerated tables + vm_compute correspondence"
+LEVEL_TEXT = ("51 machine-checked Coq theorems (closed under the global context, each with a non-vacuity Example) over Model/CellGeom.v, the "
+              "Gallina transcription of the repaired Cell._neighborhood with its three cache layers, the grid / hex / network connection "
+              "code, the Delaunay-edge specification and the CellCollection agents view. Neighbourhoods: for EVERY connection function, radius "
+              ">= 1, flag and cell the result is exactly the cells within r hops, the cell itself iff include_center, no duplicates, monotone, "
+              "symmetric when connections are (C07_nbhd_is_ball, _nodup, _center_rule, _monotone, _symmetric; C07_nbhd_src_partial / _refuted "
+              "document the two repaired corners of the unchanged recursion); every history of operations observes what a cache-free "
+              "evaluation answers, including agents read from cached collections (C07_cache_transparent, by induction over histories and the "
+              "memoised recursion, key tuples from T1). Orthogonal grids, every number of axes and every size incl. 1 and 2: the n-D offset "
+              "constructions are the norm-1 offsets, the 2-D tables agree, connections are c+d wrapped / absent beyond the edge, symmetric "
+              "(C07_conn_spec_orth, C07_symmetric, ...), and the r-hop ball IS the Chebyshev / Manhattan (toroidal) ball "
+              "(C07_ball_is_metric_ball, C07_nbhd_is_metric_ball). Hex: offsets = cube distance 1 for every (i,j) in Z^2, symmetric on "
+              "admissible tori (C07_hex_touching, C07_conn_spec_hex, C07_hex_symmetric). Network: connections = graph edges; directed graphs "
+              "as boundary (C07_network*, C07_network_directed*). Voronoi: exact in-circle test is geometric, certificate soundness, and end "
+              "to end: certified triangulation + translated extraction = Delaunay adjacency (C07_voronoi_cert_sound, "
+              "C07_voronoi_connections_of_source). Code-level T1: 19 constructs regenerated from the source on every run with robust bridge "
+              "lemmas model = generated code (Proofs/CellGeomBridge.v) and the headline theorems restated about the translated code "
+              "(C07_conn_spec_nd_of_source, C07_conn_spec_2d_of_source, C07_nbhd_is_ball_of_source, ...). T2: differential vm_compute "
+              "evaluation on the implementation's own connection tables; an independent oracle states the property on the implementation. "
+              "Defects of the unchanged tree found and fixed: self-connected cell in its own neighbourhood, isolated cell missing with "
+              "include_center (one fix), VoronoiGrid losing Delaunay edges whose triangles all touch the frame (two centroids unconnected).")
+LEVEL_NOTE = ("Theorems are about the model and the translated code. Not proved: Bowyer-Watson in binary64 (validated per instance by a "
+              "certificate checked inside Coq; binary64 point sets are oracle-only), the general theory that 'some third point spans an empty "
+              "circle' characterises Delaunay edges in general position (taken as the specification). Oracle-only streams: non-int node "
+              "labels, binary64 Voronoi points, radii above 256, spaces whose connection table exceeds 1400 entries. Trusted: Coq kernel, "
+              "pyexpr + the T1 extractors, the driver/observer, CPython dict / functools.cache / itertools / networkx semantics as modelled. "
+              "No axioms.")
+TECHNIQUE = ("Coq proof (induction over radius, op histories, number of axes, paths; per-instance certificates by vm_compute; closed under the "
+             "global context) + code-level T1 (pyexpr translation with robust bridge lemmas, tables, normalised statement skeletons) + "
+             "vm_compute correspondence + independent oracle")
 DESIGN_REF = "DESIGN.md section 4, C07"
